@@ -81,6 +81,12 @@ pub fn eval(c: &RawCase) -> Outcome {
             CallResult::Skipped => break,
             CallResult::Panic(p) => {
                 o.aborted_by_panic = Some(p.clone());
+                if matches!(s.verdict, Verdict::MustAccept) {
+                    // a call that violates no precondition has to succeed; unwinding out of it is not success (C12 reports the panic itself)
+                    let ep = entry(&s.op);
+                    o.fail("accept", format!("accept.{}.panic", ep), format!("call {} ({}) violates no documented precondition but panicked: {}", i, ep, clip(p, 160)));
+                    return o;
+                }
                 break;
             }
             _ => {}
